@@ -79,10 +79,35 @@ func (in *Interp) vf(fn *ssa.Function, args []Value) Value {
 	in.res.Intrinsics[fn.Name()]++
 	switch fn.Name() {
 	case "vfInt":
+		lo, hi := args[1].(*Term), args[2].(*Term)
+		if lo.IsConst() && hi.IsConst() && lo.Int() >= 0 && hi.Int() >= lo.Int() {
+			// non-negative bounded value: a narrow variable zero-extended to 64 bits
+			// (same values, but the solver sees the constant high bits)
+			w := 1
+			for int64(1)<<uint(w) <= hi.Int() {
+				w++
+			}
+			v := ZExt(in.newInput(str(0), w, "int"), 64)
+			in.assumeFeasible(And(Cmp("bvule", lo, v), Cmp("bvule", v, hi)))
+			return v
+		}
 		v := in.newInput(str(0), 64, "int")
-		c := And(Cmp("bvsle", args[1].(*Term), v), Cmp("bvsle", v, args[2].(*Term)))
+		c := And(Cmp("bvsle", lo, v), Cmp("bvsle", v, hi))
 		in.assumeFeasible(c)
 		return v
+	case "vfPick":
+		// small enumeration: fork over the concrete values, return a constant
+		lo, ok1 := constInt(args[1].(*Term))
+		hi, ok2 := constInt(args[2].(*Term))
+		if !ok1 || !ok2 || hi < lo || hi-lo > 64 {
+			in.unsupported("vfPick needs a small constant range")
+		}
+		v := in.newInput(str(0), 64, "int")
+		conds := make([]*Term, hi-lo+1)
+		for i := range conds {
+			conds[i] = Eq(v, BV(64, int64(lo+i)))
+		}
+		return BV(64, int64(lo+in.choose(conds)))
 	case "vfU8":
 		return in.newInput(str(0), 8, "int")
 	case "vfU16":
